@@ -522,7 +522,21 @@ type Contracts struct {
 	Tracked map[string]bool
 	Pools   map[string]string // global holding a *sync.Pool -> type of the pooled objects
 	TypeInvs map[string]string // dynamic type -> spec predicate assumed for every value of that type taken out of an interface
+	Effects []*EffectDecl      // effect <name> <kind> <words...> [: reason]
 	Files   []string
+}
+
+// EffectDecl is one line of an effect contract (DESIGN C07): the entry set,
+// the dynamic calls the property itself excludes, the library functions
+// trusted to have the effect, and scoped exemptions with their reason.
+type EffectDecl struct {
+	Effect string // allocfree
+	Kind   string // entry, dynamic, trusted, exempt
+	Words  []string
+	Reason string
+	Pkg    string
+	File   string
+	Line   int
 }
 
 func newContracts() *Contracts {
@@ -530,7 +544,7 @@ func newContracts() *Contracts {
 }
 
 var clauseKeywords = map[string]bool{
-	"typeinv": true, "pool": true, "config": true, "package": true, "func": true, "dyn": true, "iface": true, "var": true, "global": true, "spec": true, "axiom": true, "track": true,
+	"typeinv": true, "pool": true, "config": true, "package": true, "func": true, "dyn": true, "iface": true, "var": true, "global": true, "spec": true, "axiom": true, "track": true, "effect": true,
 	"props": true, "arith": true, "requires": true, "ensures": true, "ensures!": true, "modifies": true, "loop": true,
 	"invariant": true, "decreases": true, "assert": true, "flag": true, "trusted": true,
 }
@@ -720,6 +734,17 @@ func (cs *Contracts) loadContractFile(file, pkg string, trusted bool) error {
 				return fail(rl.line, "pool <global> <type> [<spec predicate every pooled value satisfies>]")
 			}
 			cs.Pools[qualifyVar(pkg, f[0])] = strings.Join(f[1:], " ")
+			cur = nil
+		case "effect":
+			body, reason := rest, ""
+			if j := strings.Index(rest, " : "); j >= 0 {
+				body, reason = rest[:j], strings.TrimSpace(rest[j+3:])
+			}
+			f := strings.Fields(body)
+			if len(f) < 3 {
+				return fail(rl.line, "effect <name> <entry|dynamic|trusted|exempt> <words...> [: reason]")
+			}
+			cs.Effects = append(cs.Effects, &EffectDecl{Effect: f[0], Kind: f[1], Words: f[2:], Reason: reason, Pkg: pkg, File: file, Line: rl.line})
 			cur = nil
 		case "track":
 			for _, n := range splitNames(rest) {
